@@ -14,6 +14,8 @@ INST = {
 UNITS = {
     "drv": ("units/drv.rs", None),
     "final": ("units/final.rs", None),
+    "map.f64": ("units/map.rs", "f64"),
+    "map.of64": ("units/map.rs", "of64"),
     "feat.of64": ("units/feat.rs", "of64"),
     "feat.f64": ("units/feat.rs", "f64"),
 }
@@ -48,6 +50,12 @@ PLAN["C15"] = dict(
 
 PLAN["C20"] = dict(
     verus=dict(quick=["final"], thorough=["final"]),
+    kani=dict(quick=[], thorough=[]),
+    level="proof",
+)
+
+PLAN["C13"] = dict(
+    verus=dict(quick=["map.f64"], thorough=["map.f64", "map.of64"]),
     kani=dict(quick=[], thorough=[]),
     level="proof",
 )
